@@ -96,13 +96,13 @@ CHECK_META = {
         technique="deterministic simulation of the whole server with simulated pollers under the seeded scheduler; conservation between expvar deltas and independently witnessed events",
         design_ref="DESIGN.md section 3, C25",
         text="exploration: seeded log and program-directory histories; every self-monitoring counter compared with the harness's own event count after every action",
-        note="sampling; newline-terminated lines only; accessor file for the server's runtime added in the scratch copy",
+        note="sampling; accessor file for the server's runtime added in the scratch copy",
     ),
     "C17": dict(
-        technique="deterministic simulation: real socket and datagram streams over an in-memory transport under the seeded scheduler, seeded write chunking, short reads and cancellation points; per-connection framing model",
+        technique="deterministic simulation: real socket and datagram streams over an in-memory transport, real pipe and stdin streams on a kernel FIFO behind a read gate, under the seeded scheduler with seeded write chunking, short reads and cancellation points; per-connection framing model",
         design_ref="DESIGN.md section 3, C17",
         text="exploration: seeded interleavings of 1-4 writers, accept loop, per-connection readers, the closer and the deadline setter, with cancellation at arbitrary steps",
-        note="covers unix/tcp stream sockets and unixgram/udp datagram sockets through a stub transport; named pipes and stdin are not covered (stated in evidence)",
+        note="sockets through a stub transport (conformance to real sockets argued from internal/poll's contract, not tested against loopback); pipes and stdin on the real kernel behind the gate",
     ),
     "C07": dict(
         technique="deterministic simulation of the clock: real compiler + VM under the bubble's fake time with advances and New-Year jumps between lines; independent time.Parse-based model",
